@@ -159,6 +159,13 @@ class HTMLParser(object):
 
         self.framesetOK = True
 
+        # The phase objects are kept between parses: forget what an earlier
+        # (possibly aborted) parse left in them
+        self.phases["inBody"].processSpaceCharacters = \
+            self.phases["inBody"].processSpaceCharactersNonPre
+        self.phases["inTableText"].originalPhase = None
+        self.phases["inTableText"].characterTokens = []
+
     @property
     def documentEncoding(self):
         """Name of the character encoding that was used to decode the input stream, or
